@@ -28,7 +28,10 @@ LEVEL_TEXT = ("Lean 4 theorems, for every caller dictionary, set of batched keys
               "exactly the batched keys; observed keys are layered on top for the observation term; the heterogeneity "
               "step changes exactly the declared keys, inside the equation only, and is the identity without "
               "declaration; the model's evaluate of the three single losses and of both system losses equals the "
-              "closed form written with these specification functions (Holds.C12 is true of the model).  The model "
+              "closed form written with these specification functions (Holds.C12 is true of the model), including the "
+              "non-stationary normalisation term (time sample i sees row i for all normalisation samples) and the "
+              "routing of the dynamic term's gradient (into row i from sample i only, gated by the key's derivative "
+              "key; nothing into the caller's value of a batched key).  The model "
               "is tied to /repo on every run by exact differential execution of the real losses on batches built "
               "with the real append_param_batch / append_obs_batch (every subset of <= 3 keys batched, shapes (), "
               "(1,), (k,), polynomial networks and equations reading every parameter), and Holds.C12 is evaluated on "
@@ -40,9 +43,7 @@ LEVEL_NOTE = ("Trusted: Lean kernel + {propext, Classical.choice, Quot.sound}; t
               "identity on values); for the dynamic term the gradient itself is checked: jax.grad with respect to the "
               "rows of the batch and to the caller's parameters, under random derivative keys, equals the model's "
               "routed per-sample tangents exactly (JAX AD enters as a tangent oracle: the harness' exact polynomial "
-              "derivative); other terms' gradients are C06's subject.  Not covered: the non-stationary normalisation term "
-              "together with a parameter batch (nested vmaps over the same parameter axis; the code does not support "
-              "it), SPINN / HYPERPINN networks, non-power-of-two batch sizes (kept out so that float64 means are "
+              "derivative); other terms' gradients are C06's subject.  Not covered: SPINN / HYPERPINN networks, non-power-of-two batch sizes (kept out so that float64 means are "
               "exact).")
 TECHNIQUE = ("Lean 4 proof (refinement: code-shaped vmap pipeline = specification `override`; frame lemmas; closed "
              "forms) + exact differential correspondence on polynomial networks")
@@ -289,6 +290,12 @@ def build(case):
             cd["norm"] = {"samples": pts(B, d), "L": Fraction(rng.choice([1, 2, 4]), rng.choice([1, 2]))}
         else:
             cd["norm"] = None
+        if base == "nonstatio" and terms.get("norm"):
+            # non-stationary normalisation: its own number of samples (a power of two), the times of the batch
+            cd["norm_ns"] = {"samples": pts(rng.choice([1, 2, 4]), d),
+                             "L": Fraction(rng.choice([1, 2, 4]), rng.choice([1, 2]))}
+        else:
+            cd["norm_ns"] = None
         ob = case.get("obs")
         if ob is not None and (not issys or u in ob.get("unknowns", unknowns)):
             mo = 1 if ob.get("slice") else m
@@ -431,7 +438,7 @@ def single_json(pr, u, weights, with_dyn, param_rows_json, unit=False):
         return [p.to_json() for p in polys]
 
     s = {"param_rows": param_rows_json, "obs_rows": None, "het": None, "dyn": None, "ic_ode": None, "ic_pde": None,
-         "boundary": [], "norm": None, "obs": None}
+         "boundary": [], "norm": None, "norm_ns": None, "obs": None}
     if with_dyn:
         e = pr["eqs"][0]
         if pr["residuals"][e] is not None:
@@ -465,6 +472,10 @@ def single_json(pr, u, weights, with_dyn, param_rows_json, unit=False):
     if cd["norm"] is not None:
         s["norm"] = {"w": q(w("norm_loss")), "L": q(cd["norm"]["L"]),
                      "xs": [[q(x) for x in r] for r in cd["norm"]["samples"]], "f": pv(pr["nets"][u])}
+    if cd.get("norm_ns") is not None:
+        s["norm_ns"] = {"w": q(w("norm_loss")), "L": q(cd["norm_ns"]["L"]),
+                        "ts": [[q(r[0])] for r in pr["pts"]],
+                        "xs": [[q(x) for x in r] for r in cd["norm_ns"]["samples"]], "f": pv(pr["nets"][u])}
     if cd["obs"] is not None:
         ob = cd["obs"]
         mo = len(ob["val"][0])
@@ -701,13 +712,13 @@ def make_world(case, pr=None):
             else:
                 kw["omega_boundary_fun"] = None
                 kw["omega_boundary_condition"] = None
-            if base == "statio" or True:
-                if cd["norm"] is not None:
-                    kw["norm_samples"] = arr(cd["norm"]["samples"])
-                    kw["norm_int_length"] = float(cd["norm"]["L"])
-                else:
-                    kw["norm_samples"] = None
-                    kw["norm_int_length"] = None
+            nm = cd["norm"] if cd["norm"] is not None else cd.get("norm_ns")
+            if nm is not None:
+                kw["norm_samples"] = arr(nm["samples"])
+                kw["norm_int_length"] = float(nm["L"])
+            else:
+                kw["norm_samples"] = None
+                kw["norm_int_length"] = None
             if base == "nonstatio":
                 if cd["ic"] is not None:
                     icp = cd["ic"]
@@ -873,7 +884,7 @@ def gen_cases(rng, tier):
                 base = kind.replace("sys_", "")
                 B = rng.choice([2, 4]) if sub else rng.choice([1, 2, 4])
                 terms = {"dyn": True, "ic": base != "statio", "boundary": base != "ode" and rng.random() < 0.6,
-                         "norm": base == "statio" and rng.random() < 0.6}
+                         "norm": base != "ode" and rng.random() < 0.6}
                 obs = None
                 if rng.random() < 0.5:
                     obs = {"eq_keys": rng.sample(names, rng.randint(0, len(names))), "slice": False}
